@@ -19,7 +19,7 @@ def _sh(s):
 # ------------------------------------------------------------------ no_ambiguity
 
 
-@rule("OPT-AMB", ["C08", "C01", "C12"], floor=4)
+@rule("OPT-AMB", ["C08", "C01", "C12", "C11", "C02", "C20"], floor=4)
 def opt_amb(ctx):
     """no_ambiguity may answer true only under a justification: J1 the follower is EndProgram and the repeat is
     greedy; J2 the first sets of the repeated term and of the follower are disjoint AND the follower can never
@@ -120,7 +120,7 @@ def opt_disjoint(ctx):
 SEQ_OPT = "<op_sequence::Sequence as %s>::optimize::{closure#0}" % OC
 
 
-@rule("OPT-UNAMB-SITES", ["C08", "C01", "C20", "C06"], floor=4)
+@rule("OPT-UNAMB-SITES", ["C08", "C01", "C20", "C06", "C11", "C02"], floor=4)
 def opt_unamb_sites(ctx):
     """UnambiguousRepeat (a cut: single result, no backtracking) is built only in Sequence::optimize, only for a
     repeated Atom/CharClass, and only under min==max or no_ambiguity(child, next operation, flag i, !greedy);
